@@ -313,6 +313,53 @@ def r_tmaflag(d):
     edit(os.path.join(d, "gameboy/timer/timer.go"), lambda s: s.replace("\t\tif t.tmaWrite {\n\t\t\tt.tima = t.tma\n\t\t}\n\t}\n\tt.tmaWrite = false\n", "\t\tif t.tmaWrite {\n\t\t\tt.tima = t.tma\n\t\t\tt.tmaWrite = false\n\t\t}\n\t}\n"))
 R["21-tma-flag-cleared-where-consumed"] = r_tmaflag
 
+# 22 the metadata loop counts its entries (a plain counter in a map loop during package init)
+def r_initcount(d):
+    p = os.path.join(d, "gameboy/cpu/instruction_metadata.go")
+    def f(s):
+        s = s.replace("\tfor addrStr, instruction := range instructionMap {\n", "\tentries := 0\n\tfor addrStr, instruction := range instructionMap {\n\t\tentries++\n", 1)
+        s = s.replace("\t\t(*arrayToInit)[addr] = instruction\n\t}\n}", "\t\t(*arrayToInit)[addr] = instruction\n\t}\n\tif entries > 256 {\n\t\tpanic(\"Metadata error: more than 256 entries\")\n\t}\n}", 1)
+        return s
+    edit(p, f)
+R["22-init-loop-counter"] = r_initcount
+# 23 MBC5 dump through a preallocated buffer and copy with an int offset
+def r_dumpcopy(d):
+    edit(os.path.join(d, "gameboy/memory/mbc5.go"), rep("\tvar dump []byte\n\tfor _, r := range m.ram {\n\t\tdump = append(dump, r[:]...)\n\t}\n\treturn dump", "\tdump := make([]byte, len(m.ram)*0x2000)\n\tfor i := range m.ram {\n\t\tcopy(dump[i*0x2000:], m.ram[i][:])\n\t}\n\treturn dump"))
+R["23-dump-copy-int-offset"] = r_dumpcopy
+# 24 Pending() as one masked expression (the correct version of two seeded slips)
+def r_pending(d):
+    edit(os.path.join(d, "gameboy/interrupts/interrupts.go"), rep("\treturn i.JoypadPending() ||\n\t\ti.SerialPending() ||\n\t\ti.TimerPending() ||\n\t\ti.StatPending() ||\n\t\ti.VblankPending()", "\treturn i.ReadIE()&i.ReadIF()&0x1f != 0"))
+R["24-pending-masked-expression"] = r_pending
+# 25 SB delivery through a one-byte array
+def r_sbarray(d):
+    edit(os.path.join(d, "gameboy/serial/serial.go"), rep("\t_, err := s.writer.Write([]byte{value})", "\tbuf := [1]byte{value}\n\t_, err := s.writer.Write(buf[:])"))
+R["25-sb-one-byte-array"] = r_sbarray
+
+# 26 the per-cycle body of runFrame in a helper
+def r_stephelper(d):
+    p = os.path.join(d, "gameboy/gameboy.go")
+    def f(s):
+        i = s.index("func (gb *Gameboy) runFrame(")
+        j = s.index("\n}\n", i) + 3
+        fn = s[i:j]
+        a = fn.index("{", fn.index("for ")) + 1
+        # the loop body is everything up to the loop's closing brace: find it by indentation
+        lines = fn[a:].split("\n")
+        body, rest = [], []
+        depth_done = False
+        for k, ln in enumerate(lines):
+            if not depth_done and ln.startswith("\t}"):
+                depth_done = True
+                rest = lines[k:]
+                break
+            body.append(ln)
+        assert depth_done
+        newfn = fn[:a] + "\n\t\tgb.step()\n" + "\n".join(rest)
+        helper = "\n// step advances the whole machine by one machine cycle\nfunc (gb *Gameboy) step() {" + "\n".join(l[1:] if l.startswith("\t") else l for l in body) + "\n}\n"
+        return s[:i] + newfn + helper + s[j:]
+    edit(p, f)
+R["26-per-cycle-step-helper"] = r_stephelper
+
 only = sys.argv[1:]
 for name, fn in R.items():
     if only and name not in only:
